@@ -20,7 +20,7 @@ def run(ctx):
     # ------------------------------------------------ 1. validate before touching
     o = ctx.body('db::DbInner::open')
     if o:
-        ld = o.call_sites('options::Options::load_and_validate_metadata')
+        ld = o.call_sites('re:^options::Options::load_and_validate_metadata(_in_version)?$')
         lo = o.call_sites('log::Log::open')
         co = o.call_sites('column::Column::open')
         ctx.ob('1a open-anchors', 'anchor', o.path, 'DbInner::open: one metadata validation, one Log::open, one Column::open site', len(ld) == 1 and len(lo) == 1 and len(co) == 1, '%s %s %s' % (ld, lo, co))
@@ -35,7 +35,11 @@ def run(ctx):
                 if op_place(a):
                     sl |= set(bi for bi, _ in backward_slice(o, [op_place(a)]).call_sites)
             ctx.ob('1e columns-opened-with-stored-metadata', 'K4-provenance', o.path, 'Column::open receives the metadata returned by load_and_validate_metadata', bool(ld) and ld[0] in sl, '')
+    # the validating loader (the plain entry may be a one-line wrapper of the variant that is also told which version to create)
     lv = ctx.body('options::Options::load_and_validate_metadata')
+    lv2 = F.body('options::Options::load_and_validate_metadata_in_version')
+    if lv and lv2 is not None and not lv.call_sites('options::Options::load_metadata'):
+        lv = lv2
     if lv:
         wm = lib.sites_reaching(lv, ['options::Options::write_metadata_file_with_version', 'std::fs::write'])
         lm = lv.call_sites('options::Options::load_metadata')
@@ -53,8 +57,8 @@ def run(ctx):
     ctx.ob('2a metadata-writers', 'K4-confinement', ','.join(wr), 'the metadata file is written only through write_metadata_with_version / write_metadata_file',
            set(wr) <= {'options::Options::write_metadata_with_version', 'options::Options::write_metadata_file'}, str(wr))
     top = sorted(F.direct_callers_of('options::Options::write_metadata', 'options::Options::write_metadata_with_version') - {'options::Options::write_metadata'})
-    allowed = {'options::Options::load_and_validate_metadata', 'db::Db::add_column', 'db::Db::drop_last_column', 'db::Db::reset_column', 'migration::migrate'}
-    ctx.ob('2b metadata-write-entry-points', 'K4-confinement', ','.join(top), 'metadata is (re)written only by create-open, the three column administration calls and migration', all(lib.confined_through(F, x, allowed) or x in allowed for x in top) and 'options::Options::load_and_validate_metadata' in top, str(top))
+    allowed = {'options::Options::load_and_validate_metadata', 'options::Options::load_and_validate_metadata_in_version', 'db::Db::add_column', 'db::Db::drop_last_column', 'db::Db::reset_column', 'migration::migrate'}
+    ctx.ob('2b metadata-write-entry-points', 'K4-confinement', ','.join(top), 'metadata is (re)written only by create-open, the three column administration calls and migration', all(lib.confined_through(F, x, allowed) or x in allowed for x in top) and any(x.startswith('options::Options::load_and_validate_metadata') for x in top), str(top))
     cd = sorted(F.direct_callers_of('std::fs::create_dir_all', 'std::fs::create_dir'))
     ctx.ob('2c directory-creators', 'K4-confinement', ','.join(cd), 'directories are created only by DbInner::open (create mode) and migration', all(x in ('db::DbInner::open', 'migration::migrate') or lib.confined_through(F, x, {'db::DbInner::open', 'migration::migrate'}) for x in cd), str(cd))
     if o:
